@@ -1,5 +1,6 @@
 import Driver.Proto
 import Gotree.Spec.C11
+import Gotree.Model.C11Tbe
 import Gotree.Gen.C11Goroutines
 
 namespace Gotree.Driver.C11
@@ -118,28 +119,55 @@ def parseCliW (binary : Bool) (s : String) : Option (List (Nat × Option (Rat ×
 
 def absR (q : Rat) : Rat := if q ≥ 0 then q else -q
 
-/-- the model of TBE: for each bootstrap tree in turn one run of the pool LTS over the reference
-    branches (`cpu` workers, the edge channel of capacity `cpu*10`, a schedule derived from the case),
-    then the normalisation.  `none` = a model run did not end closed with every branch delivered. -/
-def tbeModel (ref : T) (boots : List T) (threads : Nat) (seed : UInt64) : Option (List Rat) :=
-  let n := ref.splits.length
-  let rec go : List T → Nat → List Rat → Option (List Rat)
-    | [], _, sups => some sups
-    | b :: bs, k, sups =>
-      let sched := mkSched (seed + k.toUInt64) threads (8 * n + 6)
-      let fin := runToEnd (extractedShape "tbe") (tbeItemFn ref b) (fun _ => false) threads (threads * 10) (tbeItems ref sups) sched
-      if !fin.closed || fin.panicked then none
-      else match tbeCollect n fin.out with
-        | some sups' => go bs (k + 1) sups'
-        | none => none
-  (go boots 0 (ref.splits.map fun _ => NIL)).map (tbeNormalize ref boots.length)
-
 /-- within 2⁻⁵⁰ (three float roundings of values in [0,1]) -/
 def approxAbs (a b : Rat) : Bool := absR (a - b) * (1125899906842624 : Rat) ≤ 1
 
 /-- a value printed on one line (the verdict protocol is line-based) -/
 def showL (f : Std.Format) : String :=
   (toString f).map fun c => if c == '\n' || c == '\t' then ' ' else c
+
+/-! ### `C11.hmseq`: a history of calls on one `hashmap.HashMap` -/
+
+def parseHmOp (s : String) : Option (HM.Op Nat Int) :=
+  match s.splitOn ":" with
+  | ["p", k, v] => match k.toNat?, v.toInt? with
+    | some k, some v => some (.put k v)
+    | _, _ => none
+  | ["g", k] => (k.toNat?).map .get
+  | ["K"] => some .keys
+  | ["V"] => some .keyValues
+  | _ => none
+
+def parseHmOut (s : String) : Option (HM.Out Nat Int) :=
+  if s == "u" then some .unit
+  else if s == "absent" then some (.val none)
+  else if s == "panic" then some .panic
+  else if s.startsWith "v" then ((dropFirst s).toInt?).map fun v => .val (some v)
+  else if s.startsWith "K" then
+    ((splitTerm "." (dropFirst s)).mapM fun c => if c == "nil" then some none else (c.toNat?).map some).map .keys
+  else if s.startsWith "V" then
+    ((splitTerm "." (dropFirst s)).mapM fun c =>
+      if c == "nil" then some none else
+      match c.splitOn "=" with
+      | [k, v] => match k.toNat?, v.toInt? with
+        | some k, some v => some (some (k, v))
+        | _, _ => none
+      | _ => none).map .kvs
+  else none
+
+/-- an answer as text; `sorted` = the cells of Keys / KeyValues as a multiset (the property's observation),
+    otherwise in the order returned (fidelity) -/
+def hmOutStr (sorted : Bool) : HM.Out Nat Int → String
+  | .unit => "u"
+  | .val none => "absent"
+  | .val (some v) => "v" ++ toString v
+  | .keys l =>
+    let cs := l.map fun c => match c with | some k => toString k ++ "." | none => "nil."
+    "K" ++ String.join (if sorted then sortStrings cs else cs)
+  | .kvs l =>
+    let cs := l.map fun c => match c with | some (k, v) => toString k ++ "=" ++ toString v ++ "." | none => "nil."
+    "V" ++ String.join (if sorted then sortStrings cs else cs)
+  | .panic => "panic"
 
 def handle (op : String) (f : List String) : Verdict :=
   match op, f with
@@ -149,6 +177,8 @@ def handle (op : String) (f : List String) : Verdict :=
     | some threads, some ref, some items, some took, some order =>
       -- goroutines the call left behind (-1: not observed)
       let left : Int := ((((tookS.splitOn ";").drop 2).headD "").toInt?).getD (-1)
+      -- fbp, tbe: the progress counter of the caller's Supporter after the call (-1: not observed)
+      let progress : Int := ((((tookS.splitOn ";").drop 3).headD "").toInt?).getD (-1)
       let cancelled := flags.contains 'c'
       let run : Run := ⟨kind, threads, ref, items, outcome, records, outcome1, records1, race, cancelled⟩
       let n := items.length
@@ -187,6 +217,11 @@ def handle (op : String) (f : List String) : Verdict :=
       let threads := if threads < 1 then 1 else threads
       if !(runOK run) then
         ⟨.oracle, tags, (if tbeLogFloatOrder run then "class=TbeMovedTaxaFloatOrder " else "") ++ runWhy run⟩
+      else if !(progressOK run progress) then
+        ⟨.oracle, tags, "the Supporter's progress counter is " ++ toString progress ++ " after " ++ toString n ++ " trees without error"⟩
+      -- with an erroneous tree TBE (sequential outer loop) has counted the trees before it; FBP with one worker too
+      else if progress ≥ 0 && !cancelled && nbad > 0 && (kind == "tbe" || (kind == "fbp" && threads == 1)) && progress != (badPos : Int) then
+        ⟨.tie, tags, "progress counter " ++ toString progress ++ ", the model counts the " ++ toString badPos ++ " trees before the erroneous one"⟩
       else if !cliLogOK then ⟨.tie, tags, "the command logged CPUs : " ++ toString took ++ " for " ++ toString threads ++ " threads"⟩
       else if cancelled then ⟨.pass, tags, ""⟩
       -- the terminal states of the LTS against the goroutines really left behind: a maximal run of a
@@ -278,20 +313,32 @@ def handle (op : String) (f : List String) : Verdict :=
                 match x.2.1 with
                 | some q => approx x.1 q
                 | none => x.1 == x.2.2)
-            if okAll then ⟨.pass, "model-fbp" :: tags, ""⟩
+            if progress ≥ 0 && progress != (fin.out.length : Int) then
+              ⟨.tie, tags, "progress counter " ++ toString progress ++ ", the model run completed " ++ toString fin.out.length ++ " trees"⟩
+            else if okAll then ⟨.pass, "model-fbp" :: (tags ++ tagIf (progress ≥ 0) "progress-observed"), ""⟩
             else ⟨.tie, tags, "model supports " ++ showL (repr model)⟩
         else ⟨.pass, "model-stop" :: tags, ""⟩
-      else if (kind == "tbe" || kind == "clitbe") && outcome == "ok" && nbad == 0 then
-        -- the supports against the model: C10's per-branch function run through the pool LTS
-        let boots := items.filterMap fun it => match it with | .tree t => some t | .err => none
-        let supS := (records.splitOn "#").headD ""
-        match parseRatList supS, tbeModel ref boots threads seed with
-        | none, _ => bad "C11.pool tbe records"
-        | _, none => ⟨.tie, tags, "model run of the TBE fan-out does not deliver every branch"⟩
-        | some sups, some model =>
-          if sups.length == model.length && (List.zip sups model).all (fun (a, m) => if m == NIL then a == NIL else approxAbs a m) then
-            ⟨.pass, "model-tbe" :: tags, ""⟩
-          else ⟨.tie, tags, "model supports " ++ showL (repr model)⟩
+      else if kind == "tbe" || kind == "clitbe" then
+        -- the whole call against the model (Model/C11Tbe.lean): the outer loop over the stream — the first
+        -- erroneous tree makes it return its error — with, per bootstrap tree, C10's per-branch function run
+        -- through the pool LTS (`cpu` workers, edge channel of capacity `cpu*10`, one schedule per tree derived
+        -- from the case), then the normalisation.  For the commands an empty file is a stream of one error item.
+        let scheds : Nat → List (Nat × Nat) := fun k => mkSched (seed + k.toUInt64) threads (8 * ref.splits.length + 6)
+        let stream := if run.cli && items.isEmpty then [Item.err] else items
+        match tbeCall (extractedShape "tbe") ref threads (threads * 10) scheds stream with
+        | .error c =>
+          if outcome == "ok" then ⟨.tie, tags, "the model of TBE fails with " ++ c⟩
+          else ⟨.pass, "model-tbe-error" :: tags, ""⟩
+        | .ok model =>
+          if outcome != "ok" then ⟨.tie, tags, "the model of TBE succeeds, the call failed: " ++ outcome⟩
+          else
+          let supS := (records.splitOn "#").headD ""
+          match parseRatList supS with
+          | none => bad "C11.pool tbe records"
+          | some sups =>
+            if sups.length == model.length && (List.zip sups model).all (fun (a, m) => if m == NIL then a == NIL else approxAbs a m) then
+              ⟨.pass, "model-tbe" :: tags, ""⟩
+            else ⟨.tie, tags, "model supports " ++ showL (repr model)⟩
       else
         let fin := runToEnd (extractedShape kind) (fun x : Nat × Item => x.1) stops threads cap indexed sched
         if !fin.closed || fin.panicked then ⟨.tie, tags, "model run does not end closed"⟩
@@ -311,8 +358,60 @@ def handle (op : String) (f : List String) : Verdict :=
       else if outcome != "ok" || outcome1 != "ok" || records != records1 then
         ⟨.oracle, tags, "content of the hash map depends on the number of goroutines"⟩
       else if records != expect then ⟨.oracle, tags, "content of the hash map is not what was put"⟩
-      else ⟨.pass, tags, ""⟩
+      else
+        -- the model: the same calls in ONE sequential order (`hashmap_interleaving_independent`: every
+        -- interleaving of goroutines owning disjoint keys answers alike), then the `Value` of every key
+        match ((flags.replace "R" "").splitOn ",").map String.toNat? with
+        | [_, some capacity, some mod] =>
+          let hash := HM.intKeyHash mod
+          let puts : List (Nat × Int) := (List.range n).flatMap fun j => [(j, (-1 : Int)), (j, ((j * j : Nat) : Int))]
+          match HM.putAll hash (HM.new capacity 3 4) puts with
+          | none => ⟨.tie, tags, "the model of the hash map panics on this filling"⟩
+          | some m =>
+            let model := String.join ((List.range n).map fun j =>
+              match HM.value hash m j with
+              | .ok (some v) => toString j ++ ":" ++ toString v ++ ","
+              | .ok none => toString j ++ ":absent,"
+              | .panic => toString j ++ ":panic,") ++ ";" ++
+              (match HM.keys m with | .ok l => toString l.length | .panic => "panic")
+            if model != records then ⟨.tie, tags, "model content " ++ model⟩
+            else ⟨.pass, "model-hashmap-filling" :: tags, ""⟩
+        | _ => ⟨.pass, tags, ""⟩
     | _, _ => bad "C11.hm fields"
+  | "hmseq", [_, ths, flags, _, itemsS, outcome, records, outcome1, records1, race, _] =>
+    -- a history of whole calls on ONE hashmap.HashMap by one goroutine, `threads-1` others reading meanwhile
+    match ths.toNat?, ((flags.replace "R" "").splitOn ",").map String.toNat?, (splitTerm "|" itemsS).mapM parseHmOp,
+          (splitTerm ";" records).mapM parseHmOut with
+    | some threads, [some capacity, some lfNum, some lfDen, some mod], some ops, some outs =>
+      let hash := HM.intKeyHash mod
+      let m0 : HM.HMap Nat Int := HM.new capacity lfNum lfDen
+      let puts := ops.filterMap fun o => match o with | .put k v => some (k, v) | _ => none
+      let mEnd := HM.putAll hash m0 puts
+      let distinct := (puts.map (·.1)).eraseDups.length
+      let rehashed := match mEnd with | some m => decide (m.capacity > m0.capacity) | none => false
+      let collided := match mEnd with | some m => m.arr.any (fun b => b.length ≥ 2) | none => false
+      let tags := ["hmseq", "threads=" ++ toString threads] ++
+        tagIf (distinct ≥ 2 && (rehashed || collided)) "nontrivial" ++
+        tagIf rehashed "rehash" ++ tagIf collided "bucket-collision" ++ tagIf (distinct < puts.length) "put-of-a-stored-key" ++
+        tagIf (capacity &&& (capacity - 1) != 0) "capacity-not-a-power-of-two" ++ tagIf (capacity == 0) "capacity-0" ++
+        tagIf (lfNum > lfDen) "loadfactor>1" ++ tagIf (mod > 0) "few-hash-codes" ++
+        tagIf (threads ≥ 2) "concurrent-readers" ++ tagIf (flags.contains 'R') "race-build"
+      if !(terminated outcome) || !(terminated outcome1) then
+        ⟨.oracle, tags, "a history of hash map calls did not terminate normally: " ++ outcome ++ " / " ++ outcome1⟩
+      else if race != "" then ⟨.oracle, tags, "data race reported: " ++ race⟩
+      else if outcome != "ok" || outcome1 != "ok" then ⟨.oracle, tags, "hash map history failed: " ++ outcome⟩
+      else if !(HM.historyOK [] ops outs) then
+        ⟨.oracle, tags, "call " ++ toString (HM.firstBad 0 [] ops outs) ++ " of the history does not answer what was put (association-list reference)"⟩
+      else if records != records1 then
+        ⟨.oracle, tags, "the writer's answers depend on the presence of concurrent readers"⟩
+      else
+        let model := HM.runOps hash m0 ops
+        if model.map (hmOutStr true) != outs.map (hmOutStr true) then
+          ⟨.tie, tags, "model answers " ++ ";".intercalate (model.map (hmOutStr true))⟩
+        else
+          let fid := model.map (hmOutStr false) == outs.map (hmOutStr false)
+          ⟨.pass, "model-hashmap" :: tags ++ [if fid then "fidelity-keys-order-equal" else "fidelity-keys-order-differs"], ""⟩
+    | _, _, _, _ => bad "C11.hmseq fields"
   | "selftest", _ =>
     -- the driver's comparison fed with deliberately broken shapes (a table with such rows does not pass
     -- the `decide`s of Proofs/C11.lean, but the driver is built apart and runs all the same): the model run
